@@ -83,6 +83,19 @@ func VerifC08_R_no_dangling_remote_reference() {
 	be := backends.NewRemoteWrapper(fs, remote)
 	cas := NewCas(be)
 	trc := NewTargetResultCache(be)
+	// earlier in the same build the blob may have been looked at or read (another target's restore):
+	// what this process learned from a local hit says nothing about the remote store
+	switch sym.Choice("earlier_use_in_this_build", 4) {
+	case 1:
+		if rc, lerr := cas.Load(ctx, digest); lerr == nil {
+			_, _ = io.ReadAll(rc)
+			_ = rc.Close()
+		}
+	case 2:
+		_, _ = cas.LoadBytes(ctx, digest)
+	case 3:
+		_, _ = cas.Exists(ctx, digest)
+	}
 	werr := cas.Write(ctx, digest, strings.NewReader(content))
 	// a reported failure is fine (the build fails); what must not happen is a silent skip
 	sym.Assert(werr == nil || remote.failExists, "C08.R1.blob-write-fails-only-on-remote-errors")
